@@ -350,7 +350,7 @@ class Report:
             replay_path = REPLAYS / f"{self.pid}-{self.seed}-{int(time.time())}.json"
             replay_path.write_text(json.dumps(
                 {"property": self.pid, "seed": self.seed, "tier": self.tier,
-                 "violations": self.violations[:20], "unproved": self.unproved[:5]}, indent=1, default=str))
+                 "violations": self.violations[:300], "unproved": self.unproved[:20]}, indent=1, default=str))
             lines.append(f"VIOLATION property={self.pid} replay={replay_path}")
         elif self.unproved:
             rc = 1
